@@ -1,6 +1,9 @@
 //! Generic comparison of an L1 observation with the reference model.
 
 use crate::obs::*;
+use serde_json::json;
+use std::sync::Mutex;
+use vmodel::Reporter;
 use std::collections::{BTreeMap, BTreeSet};
 use vmodel::ast::*;
 use vmodel::model::*;
@@ -39,6 +42,13 @@ pub fn expectation(m: &Model) -> Expect {
         };
     }
     let mut open = None;
+    for entries in m.project.files.values() {
+        match ranges_status(entries) {
+            DeclStatus::Accept => {}
+            DeclStatus::Reject(w) => return Expect::Reject(w),
+            DeclStatus::Open(w) => open = Some(w),
+        }
+    }
     // every value of every locale file is resolved by the loader (also surplus keys hold $t)
     for ns in m.namespaces() {
         for loc in &m.locales {
@@ -176,12 +186,100 @@ pub fn envs_for(a: &[R], b: &[R]) -> Vec<Env> {
     envs
 }
 
+pub fn has_counts(rs: &[R]) -> bool {
+    let mut cv = BTreeMap::new();
+    count_vars(rs, &mut cv);
+    !cv.is_empty()
+}
+
 /// Render under an env where counts out of a type's range are simply skipped.
 pub fn render_opt(rs: &[R], env: &Env) -> Option<Result<String, RenderErr>> {
     match render(rs, env) {
         Err(RenderErr::NoCount(_)) => None,
         r => Some(r),
     }
+}
+
+/// C07 / C05: the exact multiset of diagnostics the statements call for.
+/// Format matches `Parsed::warnings`.
+pub fn expected_diagnostics(m: &Model, suppress: bool) -> Vec<String> {
+    fn kp(ns: &Option<String>, path: &[String]) -> String {
+        match ns {
+            Some(n) => format!("{n}::{}", path.join(".")),
+            None => path.join("."),
+        }
+    }
+    fn unused(m: &BTreeMap<String, MV>, ns: &Option<String>, loc: &str, pre: &mut Vec<String>, out: &mut Vec<String>) {
+        for (k, v) in m {
+            pre.push(k.clone());
+            match v {
+                MV::Sub(s) => unused(s, ns, loc, pre, out),
+                MV::Plural { ordinal, forms } => {
+                    let cats = categories(loc, *ordinal);
+                    for f in forms.keys() {
+                        if *f != Form::Other && !cats.contains(f) {
+                            out.push(format!("UnusedForm|{loc}|{}|_{}|{}", kp(ns, pre), f.suffix(), if *ordinal { "ordinal" } else { "cardinal" }));
+                        }
+                    }
+                }
+                _ => {}
+            }
+            pre.pop();
+        }
+    }
+    fn missing_surplus(
+        def: &BTreeMap<String, MV>,
+        loc_tree: &BTreeMap<String, MV>,
+        ns: &Option<String>,
+        loc: &str,
+        report_missing: bool,
+        report_surplus: bool,
+        pre: &mut Vec<String>,
+        out: &mut Vec<String>,
+    ) {
+        for (k, dv) in def {
+            pre.push(k.clone());
+            match loc_tree.get(k) {
+                None => {
+                    if report_missing {
+                        out.push(format!("Missing|{loc}|{}", kp(ns, pre)));
+                    }
+                }
+                Some(MV::Sub(ls)) => {
+                    if let MV::Sub(ds) = dv {
+                        missing_surplus(ds, ls, ns, loc, report_missing, report_surplus, pre, out);
+                    }
+                }
+                Some(_) => {}
+            }
+            pre.pop();
+        }
+        if report_surplus {
+            for k in loc_tree.keys() {
+                if !def.contains_key(k) {
+                    pre.push(k.clone());
+                    out.push(format!("Surplus|{loc}|{}", kp(ns, pre)));
+                    pre.pop();
+                }
+            }
+        }
+    }
+    let mut out = vec![];
+    for ns in m.namespaces() {
+        for loc in &m.locales {
+            if let Some(t) = m.tree(&ns, loc) {
+                unused(t, &ns, loc, &mut vec![], &mut out);
+            }
+        }
+        let Some(def) = m.tree(&ns, &m.default) else { continue };
+        for loc in m.locales.iter().skip(1) {
+            let Some(t) = m.tree(&ns, loc) else { continue };
+            let inherits = m.project.cfg.inherits_of(loc).is_some();
+            missing_surplus(def, t, &ns, loc, !inherits && !suppress, !suppress, &mut vec![], &mut out);
+        }
+    }
+    out.sort();
+    out
 }
 
 pub struct CmpStats {
@@ -191,8 +289,21 @@ pub struct CmpStats {
 }
 
 /// Compare an accepted project: key set, effective locales, rendered text of every key in every locale.
-pub fn compare_accepted(m: &Model, parsed: &Parsed, stats: &mut CmpStats) -> Vec<Disc> {
+pub fn compare_accepted(m: &Model, parsed: &Parsed, stats: &mut CmpStats, counts: Option<&[Num]>) -> Vec<Disc> {
     let mut out = vec![];
+    let exp_diag = expected_diagnostics(m, cfg!(feature = "suppress"));
+    if exp_diag != parsed.warnings {
+        let e: BTreeSet<&String> = exp_diag.iter().collect();
+        let o: BTreeSet<&String> = parsed.warnings.iter().collect();
+        let missing: Vec<&&String> = e.difference(&o).take(4).collect();
+        let extra: Vec<&&String> = o.difference(&e).take(4).collect();
+        let what = if missing.is_empty() && extra.is_empty() {
+            format!("diagnostics: same set but different multiplicities (expected {} got {})", exp_diag.len(), parsed.warnings.len())
+        } else {
+            format!("diagnostics: not emitted {missing:?}; unexpected {extra:?}")
+        };
+        out.push(Disc::new(&None, &[], "", what));
+    }
     for ns in m.namespaces() {
         let Some(nso) = parsed.ns(&ns) else {
             out.push(Disc::new(&ns, &[], "", format!("namespace {:?} missing from the result", ns)));
@@ -224,7 +335,7 @@ pub fn compare_accepted(m: &Model, parsed: &Parsed, stats: &mut CmpStats) -> Vec
                 if eff != *loc {
                     stats.defaulted += 1;
                 }
-                let expected = match m.resolve(&ns, loc, path) {
+                let mut expected = match m.resolve(&ns, loc, path) {
                     Ok(r) => r,
                     Err(e) => {
                         out.push(Disc::new(&ns, path, loc, format!("model cannot resolve an accepted key: {e:?}")));
@@ -235,8 +346,23 @@ pub fn compare_accepted(m: &Model, parsed: &Parsed, stats: &mut CmpStats) -> Vec
                     out.push(Disc::new(&ns, path, loc, format!("effective locale {oeff} has no value (expected value of {eff})")));
                     continue;
                 };
+                let mut otree = otree.clone();
+                set_plural_locale(&mut expected, loc);
+                set_plural_locale(&mut otree, loc);
+                let otree = &otree;
                 let mut mismatch = None;
-                for env in envs_for(&expected, otree) {
+                let envs = match counts {
+                    Some(cs) if has_counts(&expected) || has_counts(otree) => cs
+                        .iter()
+                        .map(|n| {
+                            let mut e = Env::marker();
+                            e.default_count = Some(*n);
+                            e
+                        })
+                        .collect(),
+                    _ => envs_for(&expected, otree),
+                };
+                for env in envs {
                     stats.renders += 1;
                     let e = render_opt(&expected, &env);
                     let o = render_opt(otree, &env);
@@ -307,4 +433,116 @@ pub fn source_of(p: &Project, ns: &Option<String>, loc: &str, path: &[String]) -
             }
         },
     }
+}
+
+#[derive(Clone, Copy)]
+pub struct CheckOpts<'a> {
+    /// counts to render every key under (None: boundary neighbourhoods derived from the trees)
+    pub counts: Option<&'a [Num]>,
+    pub write: WriteOpts,
+}
+
+impl CheckOpts<'_> {
+    pub fn default() -> CheckOpts<'static> {
+        CheckOpts { counts: None, write: default_opts() }
+    }
+}
+
+/// Run one project through the real loader and judge it against the model.
+/// Returns the expectation and the outcome so that callers can add property-specific checks.
+pub fn check_project(rep: &Reporter, pid: &str, part: &str, p: &Project, dir: &std::path::Path, keys_total: &Mutex<u64>) -> (Expect, Outcome) {
+    check_project_opts(rep, pid, part, p, dir, keys_total, CheckOpts::default())
+}
+
+fn cfg_note(p: &Project) -> String {
+    let mut s = String::new();
+    if !p.cfg.inherits.is_empty() {
+        s.push_str(&format!(" inherits={:?}", p.cfg.inherits));
+    }
+    if p.cfg.locales.as_ref().map(|l| l.len()).unwrap_or(0) > 2 || !p.cfg.inherits.is_empty() {
+        s.push_str(&format!(" locales={:?} default={:?}", p.cfg.locales.clone().unwrap_or_default(), p.cfg.default.clone().unwrap_or_default()));
+    }
+    s
+}
+
+pub fn check_project_opts(
+    rep: &Reporter,
+    pid: &str,
+    part: &str,
+    p: &Project,
+    dir: &std::path::Path,
+    keys_total: &Mutex<u64>,
+    co: CheckOpts,
+) -> (Expect, Outcome) {
+    let m = Model::new(p);
+    let out = run_project(p, dir, co.write);
+    let expect = expectation(&m);
+    match (&expect, &out) {
+        (_, Outcome::Panic(msg)) => {
+            rep.violation(
+                format!("{pid}/{part}: PANIC {} :: {}", vmodel::report::truncate(&msg.replace('\n', " "), 200), vmodel::report::truncate(&p.describe(), 600)),
+                json!({"project": p.describe(), "panic": msg, "expectation": format!("{expect:?}")}),
+            );
+        }
+        (Expect::Accept, Outcome::Ok(parsed)) => {
+            let mut stats = CmpStats { keys_compared: 0, renders: 0, defaulted: 0 };
+            let discs = compare_accepted(&m, parsed, &mut stats, co.counts);
+            *keys_total.lock().unwrap() += stats.keys_compared;
+            rep.trans(stats.renders);
+            rep.count("accepted_and_compared", 1);
+            for d in discs {
+                let src = source_of(p, &d.ns, &d.loc, &d.path);
+                rep.violation(
+                    format!("{pid}/{part}: value={src} loc={} key={}{}{}: {}", d.loc, d.ns.clone().map(|n| n + ":").unwrap_or_default(), d.path.join("."), cfg_note(p), d.what),
+                    json!({"project": p.describe(), "discrepancy": d.what}),
+                );
+            }
+        }
+        (Expect::Accept, other) => {
+            // find the culprit keys by running each one alone (slow path)
+            let mut culprits = 0;
+            if p.files.values().map(|f| f.len()).sum::<usize>() > 6 {
+                for ((ns, loc), entries) in &p.files {
+                    for (k, v) in entries {
+                        if matches!(v, Val::Sub(_)) {
+                            continue;
+                        }
+                        let mut single = Project::new(Config::simple("en", &["en"]));
+                        single.set_file(None, "en", vec![(k.clone(), v.clone())]);
+                        if expectation(&Model::new(&single)) != Expect::Accept {
+                            continue;
+                        }
+                        let o = run_project(&single, dir, co.write);
+                        if !matches!(o, Outcome::Ok(_)) {
+                            culprits += 1;
+                            rep.violation(
+                                format!("{pid}/{part}: value={} rejected: {}", val_json(v), o.short()),
+                                json!({"file": format!("{:?}/{}", ns, loc), "key": k, "outcome": o.short()}),
+                            );
+                        }
+                    }
+                }
+            }
+            if culprits == 0 {
+                rep.violation(
+                    format!("{pid}/{part}: valid project rejected: {} :: {}", other.short(), vmodel::report::truncate(&p.describe(), 600)),
+                    json!({"project": p.describe(), "outcome": other.short()}),
+                );
+            }
+        }
+        (Expect::Reject(why), Outcome::Ok(_)) => {
+            rep.violation(
+                format!("{pid}/{part}: invalid project accepted (expected {why}) :: {}", vmodel::report::truncate(&p.describe(), 600)),
+                json!({"project": p.describe(), "expected": why}),
+            );
+        }
+        (Expect::Reject(_), Outcome::Err { msg, .. }) => {
+            rep.count("rejected_as_expected", 1);
+            if msg.trim().is_empty() {
+                rep.violation(format!("{pid}/{part}: error with empty message :: {}", vmodel::report::truncate(&p.describe(), 400)), json!({}));
+            }
+        }
+        (Expect::Open(_), _) => rep.count("unspecified_by_statement", 1),
+    }
+    (expect, out)
 }
